@@ -102,4 +102,22 @@ def Distinct : List Nat → Prop
   | [] => True
   | x :: rest => x ∉ rest ∧ Distinct rest
 
+/-- the volume-id judge of the driver, executable form: the returned id has not been returned before -/
+def vidJudge (ids : List Nat) (id : Nat) : Bool := !ids.contains id
+
+/-- the judge's executable test is exactly the property's step (as `goodLog_cons_issue` for key ranges) -/
+theorem vidJudge_iff (ids : List Nat) (id : Nat) : Distinct (id :: ids) ↔ vidJudge ids id = true ∧ Distinct ids := by
+  simp [Distinct, vidJudge]
+
+/-- a whole list of returned ids passes the judge one by one iff it is `Distinct` -/
+def vidJudgeAll : List Nat → Bool
+  | [] => true
+  | id :: rest => vidJudge rest id && vidJudgeAll rest
+
+theorem vidJudgeAll_iff : ∀ (ids : List Nat), vidJudgeAll ids = true ↔ Distinct ids
+  | [] => by simp [vidJudgeAll, Distinct]
+  | id :: rest => by
+    rw [vidJudge_iff, ← vidJudgeAll_iff rest]
+    simp [vidJudgeAll]
+
 end SwV.Spec.C13
